@@ -83,10 +83,8 @@ def h_sched(P, S):
     conns = [Conn(n, s) for n, s in P["scripts"]]
     acked_state = pre
     acked_edb = "e1" if pre >= 2 else None
-    ack_events = []            # (step, connection name)
     trace = []
     step = 0
-    known = set()
     viol = None
     while True:
         ev = _enabled(conns, rt)
@@ -103,12 +101,6 @@ def h_sched(P, S):
             who.task = FE.connect(rt, who.ws, FE.SID)
             ws = who.ws
             who.task.add_done_callback(lambda _t, ws=ws: ws.close_now())   # handler ended -> library closes
-            # the known "two waiters" pattern: this connection arrives while another open connection is still
-            # waiting to be served (it is not the registered one) - both get released together
-            waiting = [c for c in conns if c is not who and c.ws is not None and c.closed_at is None
-                       and not c.ws.closed.done_ and not c.ws.iterating]
-            if waiting:
-                known.add("two-waiters")
             trace.append("open " + who.name)
         elif kind == "req":
             who.ws.feed(REQ[who.script[who.pos]]())
@@ -140,7 +132,6 @@ def h_sched(P, S):
                         if acked_state >= 1 and viol is None:
                             viol = "configuration-acknowledged-twice"      # write-once
                         acked_state = max(acked_state, 1)
-                        ack_events.append((step, c.name))
                     if t == "upload_edb":
                         ups = [r for r in c.script if r.startswith("upload")]
                         which = ups[c.upload_replies] if c.upload_replies < len(ups) else None
@@ -150,29 +141,10 @@ def h_sched(P, S):
                                 viol = "index-acknowledged-twice"              # write-once
                             acked_state = 2
                             acked_edb = "e1" if which == "upload1" else "e2"
-                            ack_events.append((step, c.name))
                     if t == "result" and not isinstance(content, dict):
                         if acked_edb is not None and content != FE.expected_result(acked_edb, b"kw") and viol is None:
                             viol = "search-not-from-acknowledged-index"
             c.seen = len(fr)
-        # the known stale-snapshot pattern: while one connection gets a transition acknowledged, ANOTHER connection
-        # that was opened earlier (so its Service object holds the older state) is still open; its close_service()
-        # will write the old snapshot back.  The same holds for a connection that was constructed earlier and has
-        # not been served yet, even if its socket is already closed (its coroutine still registers and cleans up
-        # later).  A connection that WAS served and is closed does not count: in the unchanged code its pending
-        # cleanup holds the registry lock, so nobody is served - and nothing acknowledged - until it has finished.
-        for (astep, aname) in ack_events:
-            if astep != step:
-                continue
-            for c in conns:
-                if c.name == aname or c.opened_at is None or c.opened_at >= astep:
-                    continue
-                still_open = c.closed_at is None and not c.ws.closed.done_
-                # constructed, still waiting for its turn when the acknowledgement went out (even if it gave up);
-                # being released in the very same step counts as waiting
-                never_served = c.served_step is None or c.served_step >= astep
-                if still_open or never_served:
-                    known.add("stale-snapshot")
         if step > 40:
             return S.fail("schedule-did-not-terminate")
     # quiescence: everything closed, every cleanup delay expired
@@ -205,12 +177,7 @@ def h_sched(P, S):
                 viol = "acknowledged-index-lost"
     if viol is None:
         return True
-    pre_tag = ""
-    if "stale-snapshot" in known:
-        pre_tag = "known-stale-snapshot:"
-    elif "two-waiters" in known:
-        pre_tag = "known-two-waiters:"
-    return S.fail(pre_tag + viol + " | " + "; ".join(trace))
+    return S.fail(viol + " | " + "; ".join(trace))
 
 
 QUICK_SCRIPTS = [
